@@ -155,6 +155,19 @@ def segmentDataAsNotes (f : ElfBytes) (phdr : ProgramHeader) : Out NoteIter :=
   if phdr.p_type ≠ Abi.PT_NOTE then .err (.UnexpectedSegmentType phdr.p_type Abi.PT_NOTE) else
   (f.segmentData phdr).bind fun buf => .ok ⟨f.ehdr.little, f.ehdr.cls, phdr.p_align, buf, 0⟩
 
+/-- the `PT_DYNAMIC` route to the dynamic table (shared by `dynamic()` when there is no section
+    header table and by the fallback of `find_common_data`; the Rust code spells it out twice) -/
+def dynamicFromSegments (f : ElfBytes) : Out (Option (Table Dyn)) :=
+  match f.phdrs with
+  | some phdrs =>
+    (phdrs.iter.find fun p => p.p_type == Abi.PT_DYNAMIC).bind fun o =>
+    match o with
+    | some phdr =>
+      (dataRange phdr.p_offset phdr.p_filesz).bind fun r =>
+      (f.data.getBytes r.1 r.2).bind fun buf => .ok (some (f.dynTable buf))
+    | none => .ok none
+  | none => .ok none
+
 def dynamic (f : ElfBytes) : Out (Option (Table Dyn)) :=
   match f.shdrs with
   | some shdrs =>
@@ -162,16 +175,7 @@ def dynamic (f : ElfBytes) : Out (Option (Table Dyn)) :=
     match o with
     | some shdr => (f.sectionDataAsDynamic shdr).bind fun t => .ok (some t)
     | none => .ok none
-  | none =>
-    match f.phdrs with
-    | some phdrs =>
-      (phdrs.iter.find fun p => p.p_type == Abi.PT_DYNAMIC).bind fun o =>
-      match o with
-      | some phdr =>
-        (dataRange phdr.p_offset phdr.p_filesz).bind fun r =>
-        (f.data.getBytes r.1 r.2).bind fun buf => .ok (some (f.dynTable buf))
-      | none => .ok none
-    | none => .ok none
+  | none => f.dynamicFromSegments
 
 def sectionDataAsSymbolTable (f : ElfBytes) (shdr strtabShdr : SectionHeader) :
     Out (Table Symbol × Slice) :=
@@ -256,51 +260,54 @@ structure CommonElfData where
   sysvHash : Option SysVHashTable := none
   gnuHash : Option GnuHashTable := none
 
+/-- the body of the `for shdr in shdrs.iter()` loop of `find_common_data` -/
+def commonStep (f : ElfBytes) (shdrs : Table SectionHeader) (acc : CommonElfData) (shdr : SectionHeader) :
+    Out CommonElfData :=
+  if shdr.sh_type = Abi.SHT_SYMTAB then
+    (shdrs.get shdr.sh_link).bind fun strShdr =>
+    (f.sectionDataAsSymbolTable shdr strShdr).bind fun r =>
+    Out.ok { acc with symtab := some r.1, symtabStrs := some r.2 }
+  else if shdr.sh_type = Abi.SHT_DYNSYM then
+    (shdrs.get shdr.sh_link).bind fun strShdr =>
+    (f.sectionDataAsSymbolTable shdr strShdr).bind fun r =>
+    Out.ok { acc with dynsyms := some r.1, dynsymsStrs := some r.2 }
+  else if shdr.sh_type = Abi.SHT_DYNAMIC then
+    (f.sectionDataAsDynamic shdr).bind fun t => Out.ok { acc with dynamic := some t }
+  else if shdr.sh_type = Abi.SHT_HASH then
+    (dataRange shdr.sh_offset shdr.sh_size).bind fun r =>
+    (f.data.getBytes r.1 r.2).bind fun buf =>
+    (SysVHashTable.new f.ehdr.little f.ehdr.cls buf).bind fun t =>
+    Out.ok { acc with sysvHash := some t }
+  else if shdr.sh_type = Abi.SHT_GNU_HASH then
+    (dataRange shdr.sh_offset shdr.sh_size).bind fun r =>
+    (f.data.getBytes r.1 r.2).bind fun buf =>
+    (GnuHashTable.new f.ehdr.little f.ehdr.cls buf).bind fun t =>
+    Out.ok { acc with gnuHash := some t }
+  else .ok acc
+
 def commonScan (f : ElfBytes) (shdrs : Table SectionHeader) :
     Nat → Iter SectionHeader → CommonElfData → Out CommonElfData
   | 0, _, acc => .ok acc
   | fuel + 1, it, acc =>
     match it.next with
     | (.ok (some shdr), it') =>
-      (if shdr.sh_type = Abi.SHT_SYMTAB then
-         (shdrs.get shdr.sh_link).bind fun strShdr =>
-         (f.sectionDataAsSymbolTable shdr strShdr).bind fun r =>
-         Out.ok { acc with symtab := some r.1, symtabStrs := some r.2 }
-       else if shdr.sh_type = Abi.SHT_DYNSYM then
-         (shdrs.get shdr.sh_link).bind fun strShdr =>
-         (f.sectionDataAsSymbolTable shdr strShdr).bind fun r =>
-         Out.ok { acc with dynsyms := some r.1, dynsymsStrs := some r.2 }
-       else if shdr.sh_type = Abi.SHT_DYNAMIC then
-         (f.sectionDataAsDynamic shdr).bind fun t => Out.ok { acc with dynamic := some t }
-       else if shdr.sh_type = Abi.SHT_HASH then
-         (dataRange shdr.sh_offset shdr.sh_size).bind fun r =>
-         (f.data.getBytes r.1 r.2).bind fun buf =>
-         (SysVHashTable.new f.ehdr.little f.ehdr.cls buf).bind fun t =>
-         Out.ok { acc with sysvHash := some t }
-       else if shdr.sh_type = Abi.SHT_GNU_HASH then
-         (dataRange shdr.sh_offset shdr.sh_size).bind fun r =>
-         (f.data.getBytes r.1 r.2).bind fun buf =>
-         (GnuHashTable.new f.ehdr.little f.ehdr.cls buf).bind fun t =>
-         Out.ok { acc with gnuHash := some t }
-       else .ok acc).bind fun acc' => commonScan f shdrs fuel it' acc'
+      (f.commonStep shdrs acc shdr).bind fun acc' => commonScan f shdrs fuel it' acc'
     | (.ok none, _) => .ok acc
     | (.err e, _) => .err e
     | (.panic, _) => .panic
 
+/-- the section pass of `find_common_data` -/
+def sectionScan (f : ElfBytes) : Out CommonElfData :=
+  match f.shdrs with
+  | some shdrs => f.commonScan shdrs (shdrs.data.len + 1) shdrs.iter {}
+  | none => .ok {}
+
 def findCommonData (f : ElfBytes) : Out CommonElfData :=
-  (match f.shdrs with
-   | some shdrs => f.commonScan shdrs (shdrs.data.len + 1) shdrs.iter {}
-   | none => .ok {}).bind fun result =>
+  f.sectionScan.bind fun result =>
   if result.dynamic.isNone then
-    match f.phdrs with
-    | some phdrs =>
-      (phdrs.iter.find fun p => p.p_type == Abi.PT_DYNAMIC).bind fun o =>
-      match o with
-      | some phdr =>
-        (dataRange phdr.p_offset phdr.p_filesz).bind fun r =>
-        (f.data.getBytes r.1 r.2).bind fun buf =>
-        .ok { result with dynamic := some (f.dynTable buf) }
-      | none => .ok result
+    f.dynamicFromSegments.bind fun o =>
+    match o with
+    | some t => .ok { result with dynamic := some t }
     | none => .ok result
   else .ok result
 
